@@ -736,9 +736,11 @@ def unique_tree(rng, depth=0):
         if d > 4 or rng.random() < 0.3:
             return leaf()
         n = rng.choice([0, 1, 2, 3])
-        kind = rng.choice(['list', 'tuple', 'dict', 'set'])
+        kind = rng.choice(['list', 'tuple', 'dict', 'set', 'frozenset'])
         if kind == 'list':
             return [go(d + 1) for _ in range(n)]
+        if kind == 'frozenset':
+            return frozenset({leaf() for _ in range(n)} - {None, True, False, Ellipsis})
         if kind == 'tuple':
             return tuple(go(d + 1) for _ in range(n))
         if kind == 'set':
@@ -814,7 +816,8 @@ def depth_chunk(args):
 def depth_section(tier, seed):
     rng = random.Random(seed * 23 + 9)
     vals = [unique_tree(rng) for _ in range(900 if tier == 'quick' else 8000)]
-    vals = [v for v in vals if isinstance(v, (list, tuple, dict, set))]
+    vals = [v for v in vals if isinstance(v, (list, tuple, dict, set, frozenset))]
+    vals += [frozenset([101, 102]), [frozenset([103]), 104], {'k1': frozenset([105, 's6'])}, (frozenset(),)]
     cases = [(v, rng.sample([1, 8, 20, 40, 79], 2)) for v in vals]
     chunks = [cases[i:i + 20] for i in range(0, len(cases), 20)]
     tot = nt = 0
